@@ -1,8 +1,8 @@
 (* C13 - Client and server agree on every request and response they exchange.
    Modelled: 23 request formats (Model/Wire.v) and the SendMessages request with its partitioning, messages and
-   headers of every kind (Model/WireMsg.v); the journal encoding is covered by C11 (C11_roundtrip,
+   headers of every kind (Model/WireMsg.v), the polled-messages and consumer-group-details responses (Model/WireResp.v); the journal encoding is covered by C11 (C11_roundtrip,
    C11_accepts_only_journals).  Everything else is exercised end to end by the correspondence check only. *)
-From IggyV Require Import Base.Tactics Base.ListX Base.LE Model.Wire Model.WireMsg Proofs.WireProofs Proofs.WireMsgProofs.
+From IggyV Require Import Base.Tactics Base.ListX Base.LE Model.Wire Model.WireMsg Model.WireResp Proofs.WireProofs Proofs.WireMsgProofs Proofs.WireRespProofs.
 Open Scope N_scope.
 
 (* every well-formed request - all identifier kinds, optional fields absent or present, every polling kind, names and
@@ -52,6 +52,37 @@ Proof.
     split; [vm_compute; reflexivity|]. vm_compute. split; [discriminate|reflexivity].
 Qed.
 
+(* responses: what the server writes for a poll - any partition id, current offset, any number of messages in every state with headers of
+   every kind - is read back by the SDK's decoder (with its two early exits from the message loop) as the same data; likewise the details
+   of a consumer group with any number of members owning any partitions *)
+Theorem C13_polled_response_roundtrip : forall p, wf_polled p -> dec_polled (enc_polled p) = Some p.
+Proof. exact polled_roundtrip. Qed.
+Theorem C13_group_response_roundtrip : forall g, wf_group g -> dec_group (enc_group g) = Some g.
+Proof. exact group_roundtrip. Qed.
+
+Definition ex_polled : polled :=
+  (3, 41, [ {| po := 40; pstate := 1; pts := 1700000000000000; pmid := 7; pck := 12345; phdrs := [ex_hdr]; ppay := [x2a] |};
+            {| po := 41; pstate := 10; pts := 1700000000000001; pmid := 8; pck := 0; phdrs := []; ppay := repeat x00 46 |} ]).
+Definition ex_group : groupd :=
+  {| g_id := 1; g_parts := 3; g_members := 2; g_name := ["g"%byte];
+     g_list := [ {| mb_id := 5; mb_parts := [1; 3] |}; {| mb_id := 6; mb_parts := [2] |}; {| mb_id := 9; mb_parts := [] |} ] |}.
+Example C13_responses_nonvacuous :
+  wf_polled ex_polled /\ dec_polled (enc_polled ex_polled) = Some ex_polled /\ wf_group ex_group /\ dec_group (enc_group ex_group) = Some ex_group.
+Proof.
+  split; [|split; [vm_compute; reflexivity|split; [|vm_compute; reflexivity]]].
+  - unfold wf_polled, ex_polled. split; [vm_compute; reflexivity|]. split; [vm_compute; reflexivity|]. split; [vm_compute; reflexivity|].
+    repeat (apply Forall_cons || apply Forall_nil); unfold wf_pmsg; cbn [po pstate pts pmid pck phdrs ppay].
+    + repeat (split; [vm_compute; reflexivity|]).
+      split; [repeat (apply Forall_cons || apply Forall_nil); unfold wf_hdr; vm_compute; repeat split; discriminate|].
+      split; [vm_compute; reflexivity|]. vm_compute. split; [discriminate|reflexivity].
+    + repeat (split; [vm_compute; reflexivity|]). split; [apply Forall_nil|].
+      split; [vm_compute; reflexivity|]. vm_compute. split; [discriminate|reflexivity].
+  - unfold wf_group, ex_group. cbn [g_id g_parts g_members g_name g_list].
+    split; [vm_compute; reflexivity|]. split; [vm_compute; reflexivity|]. split; [vm_compute; reflexivity|]. split; [vm_compute; discriminate|].
+    repeat (apply Forall_cons || apply Forall_nil); unfold wf_member; cbn [mb_id mb_parts];
+      (split; [vm_compute; reflexivity|]; split; [vm_compute; reflexivity|]; repeat (apply Forall_cons || apply Forall_nil); vm_compute; reflexivity).
+Qed.
+
 Print Assumptions C13_request_roundtrip.
 Print Assumptions C13_identifier_roundtrip.
 Print Assumptions C13_consumer_roundtrip.
@@ -59,3 +90,6 @@ Print Assumptions C13_decoder_total.
 Print Assumptions C13_send_roundtrip.
 Print Assumptions C13_headers_roundtrip.
 Print Assumptions C13_send_nonvacuous.
+Print Assumptions C13_polled_response_roundtrip.
+Print Assumptions C13_group_response_roundtrip.
+Print Assumptions C13_responses_nonvacuous.
